@@ -33,21 +33,34 @@ from . import common as C
 
 TRACE = True
 TRUSTED = [
-    "virtual-time simulator (harness/vsim.py): fake transports, integer-millisecond clock, one IPv4 socket per instance (IPv6 sources are delivered to its listener as "
-    "4-tuples with flowinfo and scope id, so the unpacking, the scoped records and the scoped address handling of lookups run; replies to them are not sent by the IPv4 "
-    "transport); OSError from real sockets is not modelled",
-    "the Lean host model treats the record manager / browser callbacks / lookup listeners, the answer computation of the query handler and the outgoing queues as "
-    "uninterpreted components (named hypotheses of C15_total_partial); they are exercised only by the fuzz streams of stage O",
-    "text layer of names: '.'.join(labels) followed by split('.') is modelled as splitting every decoded label at U+002E (compared per datagram by `c15enc`)",
-    "logging is not modelled",
+    "virtual-time simulator (harness/vsim.py): fake transports, integer-millisecond clock.  Five cases in six: one IPv4 socket (IPv6 sources are delivered to its "
+    "listener as 4-tuples with flow info and scope id; replies to them are not sent by an IPv4 transport).  One case in six: a dual-stack host (IPv6 wildcard listen "
+    "socket, IPv4 and IPv6 respond sockets, sendto as the kernel treats link-local destinations: EINVAL without a scope id).  Other OSErrors of real sockets are not modelled",
+    "the closed composite (Zc.Survive.Closed.hstepD over `down` and `downQ`) is hand-written and tied to the code block by block: datagram / TC-timer blocks of the main "
+    "stream through the host model with a scripted downstream (`c15run`: destination, exception, timers, deferred counts); the API stream through the whole composite over "
+    "both downstreams (`c15api`, `c15apiq`: callbacks, registry keys, has_entries, cache size, browsers, lookups, user-listener call counts; 12 of the 20 block kinds); "
+    "`c15inv`: eleven clauses of the invariant on states extracted from the real instance.  NOT compared with Lean: bytes and destinations of what is sent (judged by "
+    "stage O: canaries and every well-formed query of the stream), scheduler / outgoing-queue / question-history state.  Block kinds browserFire, lookupQuery, flush, "
+    "schedStart, serviceSend, waitNotify, waitRecords, waitTimeout are theorem-only: the real timers and tasks run under stage O, their model blocks are not replayed",
+    "application callbacks are data of the model (user RecordUpdateListener methods: hypothesis UserOK; browser handlers: outputs of a block) and blocks are atomic: an API "
+    "call made from inside a callback is outside the model",
+    "scope ids are dropped by the model; `_without_scope_id`, `_get_unique_ignoring_scope`, `async_send` / `can_send_to` run under stage O only",
+    "text layer of names: '.'.join(labels) followed by split('.') is modelled as splitting every decoded label at U+002E (compared per datagram by `c15enc`; `TextGlue` is a theorem)",
+    "logging is not modelled; one case in eight runs with the `zeroconf` logger at DEBUG, so the `if debug:` branches execute under stage O",
+    "the watchdog measures CPU time of the process (wall-clock backstop 20 x): a call that blocks without computing for less than that is not reported",
 ]
 ASSUMPTIONS = [
-    "'keeps working' = the canaries of the property after EVERY stream: a QM PTR query (aggregated multicast path) and, 3 s later, a single-question QM SRV query "
-    "(immediate path) are each answered by multicast within 3 s; an announcement of a never-seen instance gives Added in every browser of that type at once; after an "
-    "announcement of the instance that was announced/withdrawn/re-announced inside the stream every browser's latest Added/Removed callback for it is Added; "
-    "plus: the lookup task ends normally",
+    "'keeps working', queries: EVERY well-formed query of the stream and after it (plain names, not truncated, not a probe, not byte-identical to a datagram of the "
+    "last second, no truncated packets of its address pending, IPv4 source with a port) is owed every record of a registered service that answers one of its questions "
+    "and of which it lists no known answer; each must be sent by multicast or by unicast to the asker within 3 s (aggregation <= 620 ms, protected second <= 1 s + 620 ms). "
+    "After the stream: QM PTR (aggregated path), QM SRV (immediate path), QU SRV for a just-multicast record, QM inside the protected second, legacy QU",
+    "'keeps working', announcements: an announcement of a never-seen instance gives Added in every browser of that type at once (asyncio browsers, and the threaded "
+    "ServiceBrowser within 30 s of wall clock); after an announcement of the instance that was announced/withdrawn/re-announced inside the stream every browser's latest "
+    "Added/Removed callback for it is Added; the lookup task ends normally",
     "'no exception escapes into the event loop' = nothing propagates out of datagram_received and the loop's exception handler is never called (timers armed by datagram processing included)",
     "'ignored' for an oversize datagram = no datagram sent, no callback, listener memory, cache and timers unchanged",
+    "'registered services' = 1-2 services from seven profiles: one IPv4 / IPv4+IPv6 / several addresses of each family / IPv6 only / no server argument; ASCII, non-ASCII "
+    "and 63-byte names; k=v, empty, binary and ~2.9 kB TXT",
 ]
 
 # ------------------------------------------------------------------------------------------
@@ -55,34 +68,46 @@ ASSUMPTIONS = [
 
 
 class HangDetected(BaseException):
-    """raised by the wall-clock watchdog inside a call into the library that did not return (an unbounded loop on a defective tree);
+    """raised by the watchdog inside a call into the library that did not return (an unbounded loop on a defective tree);
     a BaseException, so that no `except Exception` of the library or of the harness swallows it"""
 
 
-HANG_S = 1.5      # one datagram_received / decoder / encoder call (they take milliseconds; a 12-datagram flood with 480 records ~ 50 ms)
-CASE_S = 45.0     # one whole simulated case (they take 20-300 ms)
+# Budgets are CPU time of this process (ITIMER_VIRTUAL, as wp-C02FIX's step watchdog in harness/c02.py): a loaded machine -- Lean building on
+# every core next to the check -- stretches wall clock, not CPU time, so it cannot make a correct tree look hung (review 3).  A call that
+# blocks without burning CPU is caught by a wall-clock backstop twenty times as long.
+HANG_S = 1.5      # CPU seconds for one datagram_received / decoder / encoder call (they take milliseconds; a 12-datagram flood with 480 records ~ 50 ms)
+CASE_S = 45.0     # CPU seconds for one whole simulated case (they take 20-300 ms)
+WALL_FACTOR = 20.0
 _guards = []
 
 
 def _arm():
     import signal
-    d = min(g.deadline for g in _guards) - time.time()
-    signal.setitimer(signal.ITIMER_REAL, max(d, 0.001))
+    cpu = min(g.cpu_deadline for g in _guards) - time.process_time()
+    wall = min(g.wall_deadline for g in _guards) - time.time()
+    signal.setitimer(signal.ITIMER_VIRTUAL, max(cpu, 0.001))
+    signal.setitimer(signal.ITIMER_REAL, max(wall, 0.001))
 
 
 def _alarm(signum, frame):
-    now = time.time()
+    nowc, noww = time.process_time(), time.time()
+    hit = False
     for g in _guards:
-        if g.deadline <= now + 0.0005:
-            g.deadline = now + g.seconds      # re-armed: the code that is interrupted may be called again (e.g. by the event loop)
+        if g.cpu_deadline <= nowc + 0.01 or g.wall_deadline <= noww + 0.0005:
+            # re-armed: the code that is interrupted may be called again (e.g. by the event loop)
+            g.cpu_deadline = nowc + g.seconds
+            g.wall_deadline = noww + g.seconds * WALL_FACTOR
             g.fired += 1
+            hit = True
     if _guards:
         _arm()
-    raise HangDetected()
+    if hit:
+        raise HangDetected()
 
 
 class Guard:
-    """`with Guard(seconds):` -- SIGALRM after `seconds` of wall clock inside the block; guards nest (the earliest deadline is armed)"""
+    """`with Guard(seconds):` -- SIGVTALRM after `seconds` of CPU time inside the block (SIGALRM after 20 x `seconds` of wall clock);
+    guards nest (the earliest deadlines are armed)"""
 
     def __init__(self, seconds):
         self.seconds = seconds
@@ -95,9 +120,10 @@ class Guard:
         if threading.current_thread() is not threading.main_thread():
             return self
         self.on = True
-        self.deadline = time.time() + self.seconds
+        self.cpu_deadline = time.process_time() + self.seconds
+        self.wall_deadline = time.time() + self.seconds * WALL_FACTOR
         if not _guards:
-            self.old = signal.signal(signal.SIGALRM, _alarm)
+            self.old = (signal.signal(signal.SIGVTALRM, _alarm), signal.signal(signal.SIGALRM, _alarm))
         _guards.append(self)
         _arm()
         return self
@@ -110,8 +136,10 @@ class Guard:
         if _guards:
             _arm()
         else:
+            signal.setitimer(signal.ITIMER_VIRTUAL, 0)
             signal.setitimer(signal.ITIMER_REAL, 0)
-            signal.signal(signal.SIGALRM, self.old)
+            signal.signal(signal.SIGVTALRM, self.old[0])
+            signal.signal(signal.SIGALRM, self.old[1])
         return False
 
 
@@ -183,7 +211,42 @@ def announce_packet(inst, typ, host, ip, port=81, ttl=4500, host_ttl=120, txt=b"
     return hdr(0, 0x8400, 0, len(recs)) + b"".join(recs)
 
 
-def query_packet(rng, names):
+def own_records(infos):
+    """the records the instance owns, as (owner name, type, rdata, ttl): PTR, SRV, TXT, every A / AAAA, and the NSEC records the responder
+    builds for a host without IPv4 / without IPv6 addresses -- the material of known answers (review 3: known answers were PTR / SRV only,
+    so the address / scoped-address / NSEC branches of known-answer suppression never ran)"""
+    out = []
+    for i in infos:
+        server = i.server or i.name
+        out.append((i.type, 12, wname(labels_of(i.name)), 4500))
+        if ("_services._dns-sd._udp.local.", 12, wname(labels_of(i.type)), 4500) not in out:
+            out.append(("_services._dns-sd._udp.local.", 12, wname(labels_of(i.type)), 4500))
+        out.append((i.name, 33, struct.pack(">HHH", i.priority, i.weight, i.port or 0) + wname(labels_of(server)), 120))
+        out.append((i.name, 16, i.text or b"\x00", 4500))
+        kinds = set()
+        from zeroconf import IPVersion
+        for a in i.addresses_by_version(IPVersion.All):      # (`.addresses` is the IPv4 ones only)
+            kinds.add(len(a))
+            out.append((server, 1 if len(a) == 4 else 28, bytes(a), 120))
+        if 16 not in kinds:
+            out.append((i.name, 47, wname(labels_of(i.name)) + bytes([0, 4, 0, 0, 0, 8]), 120))
+        if 4 not in kinds:
+            out.append((i.name, 47, wname(labels_of(i.name)) + bytes([0, 1, 0x40]), 120))
+    return out
+
+
+def known_answer(rng, own):
+    """one known answer: a record the instance owns (or nearly: another address / a flipped rdata byte), at a TTL around half of the real one"""
+    owner, t, rdata, ttl = rng.choice(own)
+    if rng.random() < 0.2 and rdata:
+        k = rng.randrange(len(rdata))
+        rdata = rdata[:k] + bytes([rdata[k] ^ (1 << rng.randrange(8))]) + rdata[k + 1:]
+    if rng.random() < 0.15:
+        owner = owner.upper()
+    return rr(wname(labels_of(owner)), t, rng.choice([1, 0x8001]), rng.choice([0, 1, ttl // 2 - 1, ttl // 2, ttl // 2 + 1, ttl, ttl]), rdata)
+
+
+def query_packet(rng, names, own=None):
     """a well-formed query about the instance's own names"""
     nq = rng.choice([1, 1, 1, 2, 3])
     flags = rng.choice([0, 0, 0, 0x0200, 0x0100])
@@ -194,10 +257,16 @@ def query_packet(rng, names):
             n = n.upper() if rng.random() < 0.5 else n.swapcase()
         body += q(labels_of(n), rng.choice([12, 12, 33, 16, 1, 28, 255, 47]), rng.choice([1, 1, 0x8001]))
     nan = 0
-    if rng.random() < 0.3:
-        # a known answer: PTR TA -> s1.TA at some TTL
-        body += rr(wname(labels_of(TA)), 12, 1, rng.choice([0, 1, 2249, 2250, 2251, 4500]), wname(labels_of("s1." + TA)))
-        nan = 1
+    if rng.random() < (0.45 if own else 0.3):
+        if own and rng.random() < 0.8:
+            # known answers of every type the instance owns: PTR, SRV, TXT, A, AAAA, NSEC
+            nan = rng.choice([1, 1, 2, 3])
+            for _ in range(nan):
+                body += known_answer(rng, own)
+        else:
+            # a known answer: PTR TA -> s1.TA at some TTL
+            body += rr(wname(labels_of(TA)), 12, 1, rng.choice([0, 1, 2249, 2250, 2251, 4500]), wname(labels_of("s1." + TA)))
+            nan = 1
     nau = 0
     if rng.random() < 0.1:
         body += rr(wname(labels_of("s1." + TA)), 33, 1, 120, struct.pack(">HHH", 0, 0, 80) + wname(labels_of("other.local.")))
@@ -305,6 +374,72 @@ def lookup_trunc(rng):
     return pkt[:len(pkt) - len(full) + cut]
 
 
+def parse_plain_query(data):
+    """(flags, [(name, qtype, qclass)], [(name, rtype)] of the answer section, #authority) of a query whose names are written without
+    compression (what `query_packet` / `burst_packets` / the canaries build); None for anything else.  Independent of the library's decoder."""
+    if len(data) < 12 or len(data) > MAXLEN:
+        return None
+    _id, flags, nq, nan, nau, nad = struct.unpack(">HHHHHH", data[:12])
+    off = 12
+
+    def name():
+        nonlocal off
+        labs = []
+        while True:
+            if off >= len(data):
+                raise ValueError
+            n = data[off]
+            off += 1
+            if n == 0:
+                return ".".join(labs) + "."
+            if n > 63 or off + n > len(data):
+                raise ValueError
+            labs.append(data[off:off + n].decode("utf-8"))
+            off += n
+    try:
+        qs, kas = [], []
+        for _ in range(nq):
+            n = name()
+            t, c = struct.unpack(">HH", data[off:off + 4])
+            off += 4
+            qs.append((n, t, c))
+        for _ in range(nan):
+            n = name()
+            t, c, _ttl, ln = struct.unpack(">HHIH", data[off:off + 10])
+            off += 10 + ln
+            if off > len(data):
+                raise ValueError
+            kas.append((n, t))
+    except (ValueError, struct.error, UnicodeDecodeError):
+        return None
+    return flags, qs, kas, nau
+
+
+ANSWER_WINDOW = 3000     # ms: aggregation (<= 620 ms), the protected one-second queue (<= 1 s + 620 ms), generous as the canaries' bound
+MCAST_ADDRS = ("224.0.0.251", "ff02::fb")
+
+
+def owed_by(own, parsed):
+    """the records a responder owning `own` owes the asker of this query (RFC 6762 s.6: it answers every question it has a record for,
+    unless the asker lists that record as a known answer): [(owner lower, type, rdata)].  Conservative: a record is exempt as soon as the
+    query carries ANY known answer of its name and type (whatever its rdata / TTL); ANY-questions only count for PTR / SRV / TXT."""
+    flags, qs, kas, nau = parsed
+    known = {(n.lower(), t) for n, t in kas}
+    out = []
+    for (qn, qt, qc) in qs:
+        if qc & 0x7FFF != 1:
+            continue
+        for (owner, t, rdata, _ttl) in own:
+            if owner.lower() != qn.lower() or t == 47:
+                continue
+            if not (qt == t or (qt == 255 and t in (12, 33, 16) and owner != "_services._dns-sd._udp.local.")):
+                continue          # (service type enumeration is a PTR question; the library does not treat ANY as one)
+            rec = (owner.lower(), t, rdata)
+            if (owner.lower(), t) not in known and rec not in out:
+                out.append(rec)
+    return out
+
+
 CYC = "cyc"          # an instance of the browsed type that is announced / withdrawn / re-announced inside the streams
 BURST_GAPS = [0, 20, 30, 50, 50, 100, 400, 450, 450, 480, 480]
 
@@ -340,7 +475,7 @@ def big_query(rng, names):
     """a legacy-unicast (or QU) query with 150-400 questions for registered names: the reply does not fit one datagram
     (`DNSOutgoing.packets()` overflow / rollback / TC path; review 2: never executed by the other kinds)"""
     n = rng.choice([150, 250, 400])
-    qs = b"".join(q(labels_of(rng.choice([TA, TA, names[1], "ha.local."])), rng.choice([12, 12, 33, 16, 1, 255]), rng.choice([1, 1, 0x8001]))
+    qs = b"".join(q(labels_of(rng.choice([TA, TA, names[1], names[2]])), rng.choice([12, 12, 33, 16, 1, 255]), rng.choice([1, 1, 0x8001]))
                   for _ in range(n))
     return hdr(rng.randrange(65536), 0, n) + qs
 
@@ -391,7 +526,7 @@ def addr_swap(rng):
 REP_GAPS = [300, 900, 900, 999, 1000, 1001]
 REP_SRCS = [("10.9.9.9", 40000), (PEER, 40000), ("10.7.7.7", 40001), (PEER, 53), ("10.9.9.9", 40002)]
 
-KINDS = ["nsec", "nsec", "lookupdl", "lookupdl", "cycle", "cycle", "cycle", "burst", "burst", "canrep", "canrep", "lookuptrunc", "lookuptrunc", "rand", "c02valid", "c02mut", "c02out", "c02outmut", "graph", "chain", "live", "livemut", "livemut", "query", "query", "querymut",
+KINDS = ["addrswap", "nsec", "nsec", "lookupdl", "lookupdl", "cycle", "cycle", "cycle", "burst", "burst", "canrep", "canrep", "lookuptrunc", "lookuptrunc", "rand", "c02valid", "c02mut", "c02out", "c02outmut", "graph", "chain", "live", "livemut", "livemut", "query", "query", "querymut",
          "resp", "hostile", "hostile", "lookup", "d8", "d8b", "oversize", "repeat"]
 
 
@@ -400,7 +535,7 @@ KINDS = ["nsec", "nsec", "lookupdl", "lookupdl", "cycle", "cycle", "cycle", "bur
 KINDS_BIG = ["bigq", "bigq", "flood", "tctrain", "tctrain", "addrswap", "addrswap", "query", "resp", "lookup", "cycle", "burst", "d8b", "hostile", "livemut"]
 
 
-def gen_item(rng, live, names, last, k=None):
+def gen_item(rng, live, names, last, k=None, own=None):
     from . import c02
 
     if k is None:
@@ -434,9 +569,9 @@ def gen_item(rng, live, names, last, k=None):
     elif k == "livemut":
         d = c02.mutate(rng, rng.choice(live))
     elif k == "query":
-        d = query_packet(rng, names)
+        d = query_packet(rng, names, own)
     elif k == "querymut":
-        d = c02.mutate(rng, query_packet(rng, names))
+        d = c02.mutate(rng, query_packet(rng, names, own))
     elif k == "resp":
         d = resp_packet(rng, False)
     elif k == "hostile":
@@ -452,11 +587,48 @@ def gen_item(rng, live, names, last, k=None):
     elif k == "nsec":
         d = nsec_packet(rng)
     elif k == "oversize":
-        base = query_packet(rng, names)
+        base = query_packet(rng, names, own)
         d = base + bytes(rng.choice([MAXLEN, MAXLEN + 1, MAXLEN + 1, 9000, 20000]) - len(base))
     else:
         d = last
     return k, bytes(d)
+
+
+# what the application registered (review 3: "registered services" were one IPv4 address, ASCII names, `k=v`): the profile of a case
+N_PROFILES = 7
+V6_LL = bytes([0xFE, 0x80] + [0] * 13 + [1])
+V6_GLOBAL = socket.inet_pton(socket.AF_INET6, "2001:db8::1")
+V6_ULA = socket.inet_pton(socket.AF_INET6, "fd00::1:2")
+BIN_TXT = {b"k": b"\x00\xff\xfe=\x80", "flag": None, "e": b"", "path": "/\u65e5\u672c".encode(), b"\xc3": b"\xc3\x28"}
+LONG_TXT = dict([("k%02d" % j, ("v%02d" % j) * 60) for j in range(14)] + [("max", b"m" * 251)])       # ~2.9 kB; one entry of exactly 255 bytes
+
+
+def service_infos(case):
+    """profile 0: as before (one IPv4 address, ASCII, `k=v`); 1: dual stack; 2: several IPv4 and IPv6 addresses (link-local, global, ULA),
+    binary TXT; 3: IPv6 only, non-ASCII instance and host names, multi-kB TXT; 4: dual stack, non-ASCII names, one host per service, binary TXT;
+    5: no `server` argument (the host name is the instance name), two IPv4 addresses, empty TXT; 6: dual stack, long TXT, 63-byte labels"""
+    from zeroconf import ServiceInfo
+    p = case.get("svc", 0)
+    v4, v4b = socket.inet_aton(SELF_IP), socket.inet_aton("10.0.1.1")
+    out = []
+    for i in range(case["n_services"]):
+        if p == 0:
+            kw = dict(name="s%d.%s" % (i + 1, TA), addresses=[v4], server="ha.local.", properties={"k": "v%d" % i})
+        elif p == 1:
+            kw = dict(name="s%d.%s" % (i + 1, TA), addresses=[v4, V6_LL], server="ha.local.", properties={"k": "v%d" % i})
+        elif p == 2:
+            kw = dict(name="s%d.%s" % (i + 1, TA), addresses=[v4, v4b, V6_LL, V6_GLOBAL, V6_ULA], server="ha.local.", properties=BIN_TXT)
+        elif p == 3:
+            kw = dict(name="caf\u00e9 \u65e5\u672c %d.%s" % (i + 1, TA), addresses=[V6_LL, V6_GLOBAL], server="h\u00e4-\u65e5.local.", properties=LONG_TXT)
+        elif p == 4:
+            kw = dict(name="\u2615 b\u00fcro %d.%s" % (i + 1, TA), addresses=[V6_GLOBAL, v4], server="h\u00f6st%d.local." % i, properties=BIN_TXT)
+        elif p == 5:
+            kw = dict(name="s%d.%s" % (i + 1, TA), addresses=[v4b, v4], server=None, properties=b"")
+        else:
+            kw = dict(name="%s%d.%s" % ("n" * 62, i + 1, TA), addresses=[v4, V6_LL], server="%s%d.local." % ("\u65e5" * 20 + "ab", i), properties=LONG_TXT)
+        name = kw.pop("name")
+        out.append(ServiceInfo(TA, name, 80 + i, **kw))
+    return out
 
 
 def gen_case(seed, idx):
@@ -464,10 +636,10 @@ def gen_case(seed, idx):
     big = idx % 40 == 7
     if big:
         return {"seed": seed, "idx": idx, "big": True, "v6": idx % 6 == 4, "threaded": idx % 5 == 2, "n_services": 2, "browse_own": rng.random() < 0.5, "lookup": True, "start": rng.choice([0, 300]),
-                "maxdelay": rng.choice([0, 5]), "tail": rng.choice([2000, 20000, 400000]), "n_items": rng.choice([8, 15]), "canary_id": 4242 + idx}
-    return {"seed": seed, "idx": idx, "v6": idx % 6 == 4, "threaded": idx % 5 == 2, "n_services": rng.choice([1, 1, 2]), "browse_own": rng.random() < 0.4,
+                "maxdelay": rng.choice([0, 5]), "tail": rng.choice([2000, 20000, 400000]), "n_items": rng.choice([8, 15]), "canary_id": 4242 + idx, "svc": 1 + rng.randrange(N_PROFILES - 1)}
+    return {"seed": seed, "idx": idx, "v6": idx % 6 == 4, "threaded": idx % 5 == 2, "debuglog": idx % 8 == 3, "n_services": rng.choice([1, 1, 2]), "browse_own": rng.random() < 0.4,
             "lookup": rng.random() < 0.8, "start": rng.choice([0, 0, 30, 300, 2000, 20000]), "maxdelay": rng.choice([0, 5, 20]),
-            "tail": rng.choice([0, 2000, 20000, 400000, 4000000]), "n_items": rng.choice([5, 15, 30, 60]), "canary_id": 4242 + idx}
+            "tail": rng.choice([0, 2000, 20000, 400000, 4000000]), "n_items": rng.choice([5, 15, 30, 60]), "canary_id": 4242 + idx, "svc": rng.choice([0] + list(range(1, N_PROFILES)) * 2)}
 
 
 # ------------------------------------------------------------------------------------------
@@ -684,6 +856,7 @@ def simulate(case):
             cur["down"] = []
             cur["ucast"] = None
             raised = None
+            recent_mark = sim.now()
             try:
                 with Guard(HANG_S):
                     lst.datagram_received(data, src)
@@ -695,6 +868,7 @@ def simulate(case):
                 raised = exc_name(e)
                 cur["exc"] = e
             down, cur["down"] = cur["down"], None
+            recent[data] = recent_mark
             processed = lst.last_message is not before
             if not processed:
                 tag = "oversize" if len(data) > MAXLEN else ("duplicate" if raised is None else "raised-in-constructor")
@@ -729,12 +903,69 @@ def simulate(case):
                 obs["escapes"].append({"index": idx, "exc": r, "kind": "lookupdl", "len": len(data)})
 
         dl["fire"] = dl_fire
-        infos = [ServiceInfo(TA, "s%d.%s" % (i + 1, TA), 80 + i, addresses=[socket.inet_aton(SELF_IP)], server="ha.local.",
-                             properties={"k": "v%d" % i}) for i in range(case["n_services"])]
+        recent = {}       # datagram -> time of its latest delivery (duplicate suppression window)
+        inq = []
+
+        def watch_query(idx, data, src, kind):
+            """clause three INSIDE the stream (review 3): a well-formed query -- plain names, QR = 0, opcode 0, not truncated, no authority
+            section (not a probe), from an IPv4 source with a port, not byte-identical to a datagram of the last second, no truncated
+            packets of the same address pending -- is owed every record of the instance that answers one of its questions and is not
+            listed as a known answer; each must leave the host within ANSWER_WINDOW, by multicast or by unicast to the asker"""
+            if len(src) != 2 or src[1] == 0:
+                return
+            pq = parse_plain_query(data)
+            if pq is None or pq[0] & 0xFA00 or pq[3]:
+                return
+            last_same = recent.get(data)
+            if last_same is not None and sim.now() - last_same <= 1000:
+                return
+            if lst._deferred.get(map_src(src)[0]):
+                return
+            owed = owed_by(own, pq)
+            if owed:
+                inq.append({"index": idx, "kind": kind, "t": sim.now(), "n0": len(sim.net.log), "src": list(src), "owed": owed,
+                            "qu": any(c & 0x8000 for _n, _t, c in pq[1])})
+
+        def settle_queries():
+            from zeroconf._dns import DNSAddress
+            cache_ = {}
+
+            def recs_of(d):
+                if d not in cache_:
+                    try:
+                        m = DNSIncoming(d)
+                        cache_[d] = [(x.name.lower(), x.type, bytes(x.address) if isinstance(x, DNSAddress) else None)
+                                     for x in m.answers() if x.ttl > 0] if m.valid and not m.is_query() else []
+                    except Exception:
+                        cache_[d] = []
+                return cache_[d]
+            out = []
+            for w in inq:
+                ips = (w["src"][0], "::ffff:" + w["src"][0])
+                got = set()
+                for (tm, _s, ip, p_, d_) in sim.net.log[w["n0"]:]:
+                    if tm > w["t"] + ANSWER_WINDOW:
+                        break
+                    if ip in MCAST_ADDRS or (ip in ips and p_ == w["src"][1]):
+                        for (n_, t_, a_) in recs_of(d_):
+                            got.add((n_, t_, a_))
+                missing = [o for o in w["owed"] if (o[0], o[1], o[2] if o[1] in (1, 28) else None) not in got]
+                obs["inq_checked"] = obs.get("inq_checked", 0) + 1
+                obs["inq_records"] = obs.get("inq_records", 0) + len(w["owed"])
+                if w["qu"]:
+                    obs["inq_qu"] = obs.get("inq_qu", 0) + 1
+                if missing:
+                    out.append({"index": w["index"], "kind": w["kind"], "t": w["t"], "src": w["src"], "qu": w["qu"],
+                                "missing": [[o[0], o[1], o[2].hex()[:40]] for o in missing][:4]})
+            obs["inq_unanswered"] = out
+        infos = service_infos(case)
         for info in infos:
             t = await zc.async_register_service(info)
             await t
-        names = [TA, infos[0].name, "ha.local.", "_services._dns-sd._udp.local.", infos[-1].name, TB]
+        names = [TA, infos[0].name, infos[0].server or infos[0].name, "_services._dns-sd._udp.local.", infos[-1].name, TB, infos[-1].server or infos[-1].name]
+        own = own_records(infos)
+        res_svc = "svc-profile:%d" % case.get("svc", 0)
+        obs["kinds"][res_svc] = 1
         # the query that is repeated byte for byte inside the streams (kind "canrep"): QM SRV for the first service, fixed id
         fam_q = hdr((case.get("canary_id", 4242) + 7) & 0xFFFF, 0, 1) + q(labels_of(infos[0].name), 33)
 
@@ -824,7 +1055,7 @@ def simulate(case):
                 elif kind0 == "addrswap":
                     subs = [(g, "addrswap", d, (PEER, 5353)) for g, d in addr_swap(rng)]
                 else:
-                    kind, data = gen_item(rng, live, names, last, kind0)
+                    kind, data = gen_item(rng, live, names, last, kind0, own)
                     src = (rng.choice(IPS), rng.choice(PORTS))
                     if rng.random() < (0.5 if kind in ("lookup", "lookuptrunc", "resp", "hostile") else 0.2):
                         # an IPv6 source: the socket layer hands the listener a 4-tuple (address, port, flowinfo, scope id)
@@ -847,12 +1078,16 @@ def simulate(case):
                     continue
                 last = data
                 n_log = len(sim.net.log)
+                # truncated packets of the same address pending: the copy is assembled with them, and THEIR known answers may suppress the reply
+                pre_deferred = bool(lst._deferred.get(map_src(src)[0]))
+                if kind in ("query", "burst", "canrep", "fixed", "canary"):
+                    watch_query(len(obs["items"]) - 1, data, src, kind)
                 r = deliver(data, src)
                 if r is not None:
                     obs["escapes"].append({"index": len(obs["items"]) - 1, "exc": r, "kind": kind, "len": len(data)})
                 if data == fam_q:
                     obs["fam"].append({"index": len(obs["items"]) - 1, "t": sim.now(), "src": list(src),
-                                       "replied": replied_to(n_log, map_src(src)) if src[1] not in (5353, 0) and ":" not in src[0] else None})
+                                       "replied": replied_to(n_log, map_src(src)) if src[1] not in (5353, 0) and ":" not in src[0] and not pre_deferred else None})
         streaming["on"] = False
         if obs.get("hung"):
             # a call into the library did not return: the verdict is in, the rest of the case (tail, canaries) would only hang again
@@ -889,6 +1124,19 @@ def simulate(case):
         obs["canary_q_raised"] = r
         await sim.sleep_ms(3000)
         obs["canary_q"] = answered_since(n0, 33, infos[0].name)
+        # ---- canaries 1d/1e/1f (review 3): a QU question for a record that was multicast a moment ago (unicast branch of the QU cascade);
+        # a QM question less than a second after the record was multicast (the protected queue: delayed, not dropped); a legacy query.
+        # They are judged like every well-formed query of the stream (`watch_query`)
+        for k_, (d_, src_, wait) in enumerate([
+                (hdr((cid + 3) & 0xFFFF, 0, 1) + q(labels_of(infos[0].name), 33, 0x8001), (PEER, 5353), 300),
+                (hdr((cid + 4) & 0xFFFF, 0, 2) + q(labels_of(TA), 12) + q(labels_of(infos[0].name), 16), (PEER, 5353), 700),
+                (hdr((cid + 5) & 0xFFFF, 0, 2) + q(labels_of(TA), 12) + q(labels_of(infos[-1].name), 33), ("10.9.9.9", 5353), 3000),
+                (hdr((cid + 6) & 0xFFFF, 0, 1) + q(labels_of(TA), 12, 0x8001), ("10.9.9.9", 40000), 100)]):
+            watch_query(-1 - k_, d_, src_, "canary")
+            r = deliver(d_, src_)
+            if r is not None:
+                obs["escapes"].append({"index": -1 - k_, "exc": r, "kind": "canary", "len": len(d_)})
+            await sim.sleep_ms(wait)
         # ---- canaries 2a/2b: well-formed announcements still reach the browsers -- a name never seen before must give Added in both;
         # the instance that was announced / withdrawn inside the stream must be held by both browsers after it is announced again
         cname = "canary%d" % case["idx"]
@@ -899,8 +1147,9 @@ def simulate(case):
         got = {(c[1], c[2]) for c in obs["callbacks"][c0:] if c[3] == cname + "." + TB}
         obs["canary_a"] = sorted(t for t, e in got if e == "add")
         if tbrowser is not None:
-            # the handler thread runs in real time: give it up to 3 s (it needs microseconds)
-            t_end = time.time() + 3.0
+            # the handler thread runs in real time: it needs microseconds once it is scheduled; on a loaded machine that can take long,
+            # so the limit is generous (it only costs anything when the callback never comes)
+            t_end = time.time() + 30.0
             while time.time() < t_end and ("add", cname + "." + TB) not in list(tcb):
                 time.sleep(0.002)
             obs["canary_t"] = ("add", cname + "." + TB) in list(tcb)
@@ -925,6 +1174,7 @@ def simulate(case):
         if lookup is not None:
             await lookup
         obs["lookup"] = lookup_res
+        settle_queries()
         obs["end"] = sim.now()
         for b in browsers:
             await b.async_cancel()
@@ -933,6 +1183,20 @@ def simulate(case):
             await asyncio.sleep(0)
         await zc._async_close()
 
+    import logging
+    zlog = logging.getLogger("zeroconf")
+    old_level, old_prop = zlog.level, zlog.propagate
+    if case.get("debuglog"):
+        # the library's `if debug:` branches (listener, engine, core) run: records are formatted by a handler that discards them
+        class Sink(logging.Handler):
+            def emit(self, record):
+                record.getMessage()
+        sink = Sink()
+        zlog.addHandler(sink)
+        zlog.setLevel(logging.DEBUG)
+        zlog.propagate = False
+        cleanup.append(lambda: (zlog.removeHandler(sink), zlog.setLevel(old_level), setattr(zlog, "propagate", old_prop)))
+        obs["kinds"]["debug-logging"] = 1
     try:
         with Guard(CASE_S):
             sim.run(main)
@@ -961,11 +1225,11 @@ def judge(obs):
     bad = []
     for e in obs["escapes"]:
         if e["exc"] == "HangDetected":
-            bad.append(("C15:hang", "datagram_received did not return within %.0f s of wall clock (item %d, %s, %d bytes): an unbounded loop" % (HANG_S, e["index"], e["kind"], e["len"])))
+            bad.append(("C15:hang", "datagram_received did not return within %.1f s of CPU time (item %d, %s, %d bytes): an unbounded loop" % (HANG_S, e["index"], e["kind"], e["len"])))
             continue
         bad.append(("C15:escape:%s" % e["exc"], "%s escaped datagram_received (item %d, %s, %d bytes)" % (e["exc"], e["index"], e["kind"], e["len"])))
     if obs.get("hang_outside_datagram") or any(e["exc"] == "HangDetected" for e in obs.get("errors", [])):
-        bad.append(("C15:hang", "a call into the library (a timer callback, a task step or the harness's own use of the encoder / decoder) did not return within the wall-clock budget"))
+        bad.append(("C15:hang", "a call into the library (a timer callback, a task step or the harness's own use of the encoder / decoder) did not return within the CPU-time budget"))
     if obs.get("hung"):
         return bad          # the canaries were not run
     for k in ("canary_p_raised", "canary_q_raised", "canary_a_raised", "canary_c_raised"):
@@ -995,6 +1259,11 @@ def judge(obs):
                         "a well-formed non-QU query (item %d, t=%d ms, from %s:%d) got no reply although the last time a byte-identical datagram was answered was %s"
                         % (f["index"], f["t"], f["src"][0], f["src"][1], "never" if last_ans is None else "%d ms earlier" % (f["t"] - last_ans))))
             break
+    for w in obs.get("inq_unanswered", [])[:1]:
+        bad.append(("C15:stream-query-unanswered", "a well-formed %s query (%s, t=%d ms, from %s:%d; not truncated, not a probe, not a duplicate) asked for "
+                    "records of a registered service that it did not list as known answers, and within %d ms they were sent neither by multicast nor by "
+                    "unicast to the asker: %s" % ("QU" if w["qu"] else "QM" if w["src"][1] == 5353 else "legacy", "item %d" % w["index"] if w["index"] >= 0
+                                                  else "canary %d after the stream" % -w["index"], w["t"], w["src"][0], w["src"][1], ANSWER_WINDOW, w["missing"])))
     if obs.get("canary_c") != ["h", "l"]:
         bad.append(("C15:canary-reannouncement-unseen", "after a well-formed announcement of the instance that was announced/withdrawn inside the stream, the browsers whose "
                     "latest Added/Removed callback for it is Added are %s, expected both" % obs.get("canary_c")))
@@ -1033,6 +1302,8 @@ def minimise(case, obs, sig, budget=120):
     for e in obs["escapes"]:
         if runs[0] >= budget:
             break
+        if e["index"] < 0:
+            continue
         its = [dict(items[e["index"]], gap=0)]
         if fails(its):
             return fixed_case(case, its)
@@ -1202,6 +1473,9 @@ def run_case(res, case, ctx, acc, seen, do_min=True):
         res.count("block:" + b["tag"].split(":")[0])
         res.nontriv((b["tag"].split(":")[0], b["raised"], b["port"] == 5353 if "port" in b else None, b.get("ucast")))
     res.count("canary-pairs")
+    res.count("stream-queries-judged", obs.get("inq_checked", 0))
+    res.count("stream-queries-judged-qu", obs.get("inq_qu", 0))
+    res.count("stream-query-records-owed", obs.get("inq_records", 0))
     res.count("multi-packet-messages", obs.get("multi", 0))
     md = max([n for b in obs["blocks"] for _a, n in b.get("deferred", [])] or [0])
     res.count("deferred-packets-per-address:%s" % (md if md < 3 else "3+"))
@@ -1337,7 +1611,10 @@ def run(ctx):
     n = C.Budget(tier, 1000, 20000).n
     if ctx["widened"]:
         n *= 2
-    cap = 40.0 if tier != "thorough" else 540.0   # wall-clock guard for a loaded machine; the corpus always runs
+    # wall-clock guard for a loaded machine (the quick tier must stay within its budget); the corpus always runs.  A widened run has
+    # twice the cases AND twice the time; where the guard cuts, the number of cases actually run is recorded in the evidence
+    cap = (75.0 if tier != "thorough" else 540.0) * (2 if ctx["widened"] else 1)
+    res.dist["cases-planned"] = n
     t0 = time.time()
     res.rule = ("simulated instance (1-2 services, listener browser + handler browser, optional lookup) fed 5-60 datagrams at gaps 0 ms..11 s from "
                 "{5353, 40000, 53, 1, 65535} x {foreign, peer, own address}: C02 generators (random, wire-built, encoder-built, mutated, pointer graphs, chains), "
@@ -1353,8 +1630,10 @@ def run(ctx):
     for idx in range(n):
         if time.time() - t0 > cap:
             res.notes.append("stopped after %d of %d cases: wall-clock guard of %.0f s" % (idx, n, cap))
+            res.dist["cases-not-run-(wall-clock-guard)"] = n - idx
             break
         obs = run_case(res, gen_case(seed, idx), ctx, acc, seen)
+        res.count("cases-run")
         if obs.get("hung"):
             hung_cases += 1
             if hung_cases >= 3:
